@@ -797,7 +797,9 @@ func (fr *frame) atAsserts(key string, site *ssa.Call, args []TV, c *ssa.CallCom
 			if !inLiteral || !strings.HasSuffix(FuncKey(fr.fn), closureTag) {
 				continue
 			}
-		} else if ordinal > 0 && inLiteral {
+		} else if ordinal > 0 && (inLiteral || !(fr.isTop || fr.transparent)) {
+			// a numbered clause counts the calls the function makes itself, not those of the
+			// functions inlined into it
 			continue
 		}
 		if ordinal > 0 && site != nil && fr.callOrdinal(site, callee) != ordinal {
@@ -896,29 +898,34 @@ func (fr *frame) deferredClosures(key string, site *ssa.Call, c *ssa.CallCommon,
 			} else {
 				s.note("%s: the function literal handed to %s is not executed symbolically (too large or recursive); only its captures are checked", FuncKey(s.Top), d.Callee)
 			}
-			// (2) captured-by-reference variables stay as they are
-			top := fr
-			for top.parent != nil {
-				top = top.parent
-			}
-			for i, b := range mc.Bindings {
-				al, isAlloc := b.(*ssa.Alloc)
-				if !isAlloc {
-					continue
-				}
-				name := "?"
-				if i < len(lit.FreeVars) {
-					name = lit.FreeVars[i].Name()
-				}
-				goal, src := "true", d.C.Src
-				if st := storeAfter(mc, al); st != nil {
-					goal = "false"
-					src = fmt.Sprintf("%s: captured variable %q is assigned again at %s after the literal was made", d.C.Src, name, s.P.Fset.Position(st.Pos()))
-				}
-				top.atCount[d.C.Label+":"+name]++
-				s.addObl(&Obligation{Name: fmt.Sprintf("%s#deferred:%s:%s:captured_%s_keeps_its_value@%d", shortKey(FuncKey(s.Top)), d.Callee, d.C.Label, name, top.atCount[d.C.Label+":"+name]), Props: fr.propsOf(d.C), Kind: "frame", Label: d.C.Label, Goal: goal, Src: src})
-			}
+			fr.capturesStay(d, mc, lit)
 		}
+	}
+}
+
+// capturesStay: obligation (2) of a `deferred` clause for one function literal.
+func (fr *frame) capturesStay(d AtClause, mc *ssa.MakeClosure, lit *ssa.Function) {
+	s := fr.s
+	top := fr
+	for top.parent != nil {
+		top = top.parent
+	}
+	for i, b := range mc.Bindings {
+		al, isAlloc := b.(*ssa.Alloc)
+		if !isAlloc {
+			continue
+		}
+		name := "?"
+		if i < len(lit.FreeVars) {
+			name = lit.FreeVars[i].Name()
+		}
+		goal, src := "true", d.C.Src
+		if st := storeAfter(mc, al); st != nil {
+			goal = "false"
+			src = fmt.Sprintf("%s: captured variable %q is assigned again at %s after the literal was made", d.C.Src, name, s.P.Fset.Position(st.Pos()))
+		}
+		top.atCount[d.C.Label+":"+name]++
+		s.addObl(&Obligation{Name: fmt.Sprintf("%s#deferred:%s:%s:captured_%s_keeps_its_value@%d", shortKey(FuncKey(s.Top)), d.Callee, d.C.Label, name, top.atCount[d.C.Label+":"+name]), Props: fr.propsOf(d.C), Kind: "frame", Label: d.C.Label, Goal: goal, Src: src})
 	}
 }
 
